@@ -59,7 +59,8 @@ theorem parseLinkDestination_p0 {rd : BlockReader} (hr : P0.p rd) : OKP (parseLi
     · refine OKP.bind (advance_p0 _ hb.2) (fun rd3 hr3 => ?_)
       exact OKP.pure ⟨p0_obytes _, hr3⟩
     · exact OKP.pure ⟨p0_obytes _, hb.2⟩
-  · refine OKP.bind (advance_p0 _ hb.2) (fun rd3 hr3 => ?_)
+  · refine OKP.ite (OKP.pure ⟨p0_obytes _, hb.2⟩) ?_   -- an open parenthesis is left (repair ce3b6c4)
+    refine OKP.bind (advance_p0 _ hb.2) (fun rd3 hr3 => ?_)
     exact OKP.pure ⟨p0_obytes _, hr3⟩
 
 instance : P0 (Option (Option Bytes)) := ⟨fun _ => True⟩
@@ -104,13 +105,14 @@ theorem parseLinkInline_p0 {st : St} (h : P0.p st) : OKP (parseLinkInline st) :=
     split
     · exact OKP.pure ⟨p0_none, hb.2, h.2⟩
     · refine OKP.bind (skipSpaces_p0 _ 0 hb.2) (fun a2 ha2 => ?_)
-      obtain ⟨x2, rd3⟩ := a2
+      obtain ⟨⟨x2, spaces2, ok2⟩, rd3⟩ := a2
       dsimp only
       refine OKP.bind' (fun c2 => ?_)
       refine OKP.ite ?_ ?_
       · refine OKP.bind (advance_p0 1 ha2.2) (fun rd4 hr4 => ?_)
         exact finish rd4 _ none hr4
-      · refine OKP.bind (parseLinkTitle_p0 ha2.2) (fun t ht => ?_)
+      · refine OKP.ite (OKP.pure ⟨p0_none, ha2.2, h.2⟩) ?_   -- no white space in front of a title (repair 8c83fd9)
+        refine OKP.bind (parseLinkTitle_p0 ha2.2) (fun t ht => ?_)
         obtain ⟨title, rd4⟩ := t
         dsimp only
         split
@@ -149,6 +151,7 @@ theorem parseReferenceLink_p0 (env : Env) {st : St} (h : P0.p st) (lseg : Segmen
     · exact OKP.pure ⟨⟨p0_none, trivial⟩, hst⟩
     · refine OKP.bind (processLinkLabel_p0 hst) (fun y hy => ?_)
       exact OKP.pure ⟨⟨(p0_some _).mpr hy.1, trivial⟩, hy.2⟩
+  refine OKP.ite (OKP.pure ⟨⟨p0_none, trivial⟩, hst⟩) ?_   -- brackets with only white space (repair fb85ad2)
   refine OKP.ite ?_ ?_
   · refine OKP.bind' (β := (Option LinkInfo × Bool) × St) (fun mr2 => ?_)
     exact tail mr2
